@@ -712,9 +712,9 @@ def run(run, replay=None):
     from .. import rep_suite
     with ThreadPoolExecutor(5) as ex:
         f_suite = ex.submit(rep_suite.run, run)      # (E) histories of the repository's own tests (pytest + 1 TLC worker)
-        f_rep = ex.submit(run.tlc, "rep/Rep.tla", c, name="Rep", workers=6, emit_prefix="\x00none")
-        f_hist = ex.submit(run.tlc, "rep/RepHist.tla", hist_cfg(depth), name="RepHist", workers=2)
-        f_rand = ex.submit(run.tlc, rand_path, rand_cfg, name="RepRand", workers=2, emit_prefix="\x00none")
+        f_rep = ex.submit(run.tlc, "rep/Rep.tla", c, name="Rep", workers=min(6, core.NCPU), emit_prefix="\x00none")
+        f_hist = ex.submit(run.tlc, "rep/RepHist.tla", hist_cfg(depth), name="RepHist", workers=min(2, core.NCPU))
+        f_rand = ex.submit(run.tlc, rand_path, rand_cfg, name="RepRand", workers=min(2, core.NCPU), emit_prefix="\x00none")
         f_trace = ex.submit(rep_trace.validate, run, recorded[0], "RepTrace") if recorded[0] else None
         results = [f.result() if f else None for f in (f_rep, f_hist, f_rand, f_trace)]
         f_suite.result()
